@@ -277,7 +277,7 @@ class Routing(Stream):
     IMF = [None, {}, {'sd_thresh': 0.02}, {'stop_method': 'rilling'},
            {'stop_method': 'rilling', 'rilling_thresh': {'$': 'tuple', 'v': [0.2, 0.7, 0.2]}},
            {'stop_method': 'fixed', 'max_iters': 3}, {'env_step_size': 0.5}, {'energy_thresh': 40, 'sd_thresh': 0.05},
-           {'stop_method': 'rilling', 'rilling_thresh': [0.02, 0.3, 0.02], 'env_step_size': 0.75}]
+           {'stop_method': 'rilling', 'rilling_thresh': [0.02, 0.3, 0.02], 'env_step_size': 0.75, 'max_iters': 40}]
     ENV = [None, {}, {'interp_method': 'pchip'}, {'interp_method': 'mono_pchip'}, {'interp_method': 'splrep'}]
     EXT = [None, {}, {'pad_width': 4}, {'pad_width': 1}, {'parabolic_extrema': True},
            {'pad_width': 3, 'parabolic_extrema': True},
@@ -411,6 +411,8 @@ class Routing(Stream):
 
     def compare(self, case, out, results):
         if isinstance(out, ImplError):
+            if out['error'] == 'Timeout':
+                return 'skip:traced run exceeded the per-case time budget'
             return 'implementation harness raised %s: %s' % (out['error'], out['msg'])
         if out['fallback']:
             return 'skip:stage functions %s cannot be wrapped from outside; output equivalence only' % out['fallback']
@@ -438,6 +440,8 @@ class Routing(Stream):
 
     def holds(self, case, out):
         if isinstance(out, ImplError):
+            if out['error'] == 'Timeout':
+                return []      # run time is not part of C06; counted as skipped in compare()
             return [Failure('harness-raised:' + out['error'], out['msg'])]
         fs = []
         v = case['variant'] + (':second-layer' if case.get('second') else '')
@@ -459,12 +463,8 @@ class Routing(Stream):
         for route in routes[1:]:
             if ocs[route] != ref:
                 fs.append(Failure('routes-disagree:%s:%s-vs-direct' % (case['variant'], route), '%s vs %s' % (ocs[route], ref)))
-        if case.get('expect_effect') and out['default_outcome'] is not None and not str(ref).startswith('e:'):
-            if all(ocs[r_] == out['default_outcome'] for r_ in routes):
-                # heuristic (an option may legitimately not matter for one signal): never a property violation by itself
-                fs.append(Failure('option-has-no-effect:%s:%s' % (case['variant'], '+'.join(case['expect_effect'])),
-                                  '%s: output with options %s equals the default-option output %s'
-                                  % (v, {k2: case[k2] for k2 in ('imf', 'env', 'ext')}, ref), literal=False))
+        # (no 'option has no effect on this signal' check: an option may legitimately not matter for one signal; whether
+        #  options are honoured is decided by the per-call replay above and by the stage-call records of the correspondence)
         return fs
 
     def tags(self, case, out):
